@@ -710,6 +710,16 @@ def direct_predicate(c, r):
                 fails.append(("prime-support-probe",
                               f"prime point {pn} = {r['probe_xp'][pn][k]!r}: prime prior {v!r} but its pre-image {par} = {xb!r} is "
                               f"{'inside' if inside else 'outside'} the prior box [{a}, {b}]", None))
+    fd = r.get("fd_logdet")
+    if fd:
+        ds = [(f - r["ljb"][j], j) for f, j in zip(fd, c["fd_rows"]) if finite(f) and finite(r["ljb"][j])]
+        if len(ds) >= 2:
+            lo_, hi_ = min(ds), max(ds)
+            tol = 1e-4 * (1 + max(abs(r["ljb"][j]) for _, j in ds))
+            if hi_[0] - lo_[0] > tol:
+                fails.append(("fd-jacobian",
+                              f"finite-difference ln|det dx/dx'| of inverse_rescale minus the reported log_j_inv is not constant: "
+                              f"{lo_[0]:.6g} at {c['points'][lo_[1]]} vs {hi_[0]:.6g} at {c['points'][hi_[1]]} (tolerance {tol:.3g})", hi_[1]))
     skip = set(c.get("skip_rows") or [])
     for j in range(m):
         i = j % n
@@ -974,12 +984,13 @@ def run_coq_batches(chk, items, batch_pts=350, par=8):
         txt = COQ_HDR
         for k, (idx, blocks, obs, extra) in enumerate(b):
             txt += f"Definition case_{k} : list block * list obs := ({blocks}, {cL(obs)}).\n"
-            txt += f"Eval vm_compute in (check_case case_{k}).\n"
+            txt += f"Eval vm_compute in (check_case2 case_{k}).\n"
             for e in extra:
                 txt += f"Eval vm_compute in [{e}].\n"
         return b, chk.coq_run(f"cases_{bi}", txt, timeout=1500)
 
     results, errors, prime_results = {}, [], {}
+    witnesses = run_coq_batches.witnesses = {}
     with ThreadPoolExecutor(max_workers=par) as ex:
         for b, (ok, evals, err) in ex.map(work, list(enumerate(batches))):
             if not ok or len(evals) != sum(1 + len(it[3]) for it in b):
@@ -989,6 +1000,9 @@ def run_coq_batches(chk, items, batch_pts=350, par=8):
             for (idx, _, obs, extra) in b:
                 res = parse_ll(evals[pos])
                 pos += 1
+                if len(res) >= 2:
+                    witnesses[idx] = (res[-2], res[-1])
+                    res = res[:-2]
                 for _ in extra:
                     prime_results.setdefault(idx, []).extend(parse_ll(evals[pos]))
                     pos += 1
@@ -1061,9 +1075,31 @@ def decide_functions(chk, fcases, fres):
     return items
 
 
+def fd_rows(c, limit=6):
+    """rows well inside the box in every coordinate (finite differences need room), at most `limit`"""
+    skip = set(c.get("skip_rows") or [])
+    out = []
+    for i, row in enumerate(c["points"]):
+        if i in skip:
+            continue
+        ok = True
+        for n, v in zip(c["names"], row):
+            a, b = c["bounds"][n]
+            if not (a + 0.03 * (b - a) <= v <= b - 0.03 * (b - a)):
+                ok = False
+        if ok:
+            out.append(i)
+        if len(out) >= limit:
+            break
+    return out if len(out) >= 2 else []
+
+
 def run_child(chk, cfgs, timeout=900, par=8):
     """Run the configurations on the real code, in `par` child processes."""
     from concurrent.futures import ThreadPoolExecutor
+    for c in cfgs:
+        if "fd_rows" not in c and not c.get("expect_reject"):
+            c["fd_rows"] = fd_rows(c)
     strip = [{k: v for k, v in c.items() if not k.startswith("_")} for c in cfgs]
     chunks = [strip[i::par] for i in range(par)]
 
@@ -1261,6 +1297,31 @@ def decide(chk, cfgs, res):
                     bad[k].append((idx, rowmap[idx][j]))
             if 1 in verdict and 0 not in verdict:
                 chk.nontriv((c["label"], j))
+    wit = getattr(run_coq_batches, "witnesses", {})
+    reported = 0
+    item_by_idx = {it[0]: it for it in items}
+    for idx, (wf, wb) in sorted(wit.items(), key=lambda kv: str(kv[0])):
+        if not isinstance(idx, int) or idx not in rowmap:
+            continue
+        c, r = cfgs[idx], res[idx]
+        for direction, w in (("forward", wf), ("inverse", wb)):
+            if len(w) != 2:
+                continue
+            ja, jb = rowmap[idx][w[0]], rowmap[idx][w[1]]
+            ia, ib = ja % r["n_in"], jb % r["n_in"]
+            vals = (r["lj"][ja], r["lj"][jb]) if direction == "forward" else (r["ljb"][ja], r["ljb"][jb])
+            encl = ""
+            if reported < 3:
+                encl = witness_enclosures(chk, item_by_idx[idx], w)
+            reported += 1
+            chk.fail(f"C07:{c.get('cls', '?')}:jacobian-offset-not-constant:{direction}",
+                     f"{c['label']}: the reported {direction} log_j minus the true log|det J| (proven enclosure of the model's "
+                     f"log-Jacobian, which is the true one up to a point-independent constant) is not one constant: "
+                     f"point {c['points'][ia]} reports {vals[0]!r}, point {c['points'][ib]} reports {vals[1]!r}; "
+                     f"the two offset intervals are separated (C07_separated_sound). {encl}",
+                     {"config": {k: v for k, v in c.items() if not k.startswith('_') and k not in ("neighbours", "outside")},
+                      "kind": "jacobian", "direction": direction, "rows": [ia, ib], "reported": list(vals),
+                      "enclosures(forward, inverse) at the two points": encl, "point_index": ia})
     for k in range(4):
         detail = ""
         if bad[k]:
@@ -1280,6 +1341,22 @@ def decide(chk, cfgs, res):
     for c, r in list(zip(cfgs, res))[:: max(1, len(cfgs) // 5)]:
         chk.sample({"label": c["label"], "points": c["points"][:3],
                     "observed": {k: (v[:3] if isinstance(v, list) else v) for k, v in r.items() if k in ("lj", "ljb", "error")}})
+
+
+def witness_enclosures(chk, item, w):
+    """Coq's decimal output of the log-Jacobian enclosures at the two witness rows (break path only)."""
+    idx, blocks, obs, _ = item
+    txt = COQ_HDR + f"Eval vm_compute in (map (lj_enclosures {blocks}) [{obs[w[0]]}; {obs[w[1]]}]).\n"
+    ok, evals, err = chk.coq_run(f"witness_{idx}", txt, timeout=300)
+    if not ok or not evals:
+        return ""
+    import re
+    def dec(m):
+        num, den = int(m.group(1)), int(m.group(2))
+        return repr(num / den)
+    t = re.sub(r"\{\|\s*QArith_base\.Qnum := \(?(-?\d+)\)?;\s*QArith_base\.Qden := (\d+)\s*\|\}", dec, evals[0])
+    t = t.replace("Interval.BDecimal", "").replace("Interval.BInteger", "").replace("Some", "")
+    return "enclosures: " + " ".join(t.split())[:600]
 
 
 def outside_fold(c, r, p, row):
@@ -1397,6 +1474,24 @@ def replay(data):
     r = subprocess.run([common.PY, os.path.join(common.VERIF, "harness", "c07_child.py")], input=json.dumps([c]),
                        capture_output=True, text=True, env=common.child_env())
     res = json.loads(r.stdout)[0]
+    if rp.get("kind") == "jacobian":
+        c = dict(c)
+        c["fd_rows"] = list(rp["rows"])
+        r = subprocess.run([common.PY, os.path.join(common.VERIF, "harness", "c07_child.py")], input=json.dumps([c]),
+                           capture_output=True, text=True, env=common.child_env())
+        res = json.loads(r.stdout)[0]
+        fd = res.get("fd_logdet") or []
+        inv = rp.get("direction") == "inverse"
+        lj = [res["ljb" if inv else "lj"][j] for j in rp["rows"]]
+        # true ln|det J_f|(x) = - ln|det dx/dx'|(x'); reported - true = lj + fd (forward), ljb - fd (inverse)
+        offs = [(a - b) if inv else (a + b) for a, b in zip(lj, fd)]
+        bad = len(offs) == 2 and all(finite(o) for o in offs) and abs(offs[0] - offs[1]) > 1e-4 * (1 + max(abs(v) for v in lj))
+        print(json.dumps({"label": c.get("label"), "points": [c["points"][j] for j in rp["rows"]], "reported log_j": lj,
+                          "finite-difference ln|det dx/dx'|": fd, "reported - true (must be one constant)": offs,
+                          "enclosures recorded by the check": rp.get("enclosures(forward, inverse) at the two points")}, indent=1))
+        if bad:
+            print(f"VIOLATION property={PID} replay=(replayed) reported log_j minus the true log|det J| differs between the two points: {offs}")
+        return 1 if bad else 0
     if rp.get("kind") == "deriv":
         diffs = [d - l for d, l in zip(res.get("num_logabs_deriv", []), res.get("lj", [])) if finite(d) and finite(l)]
         bad = bool(diffs) and max(diffs) - min(diffs) > 1e-4
